@@ -146,6 +146,9 @@ def run(ck):
         ck.mc("MC_ScalarMul", "MC_ScalarMul_29_all.cfg", note="order-40 group, pair phase from every (point, scalar)", workers=12, timeout=3000)
         ck.mc("MC_ScalarMul", "MC_ScalarMul_101.cfg", note="order-88 group", workers=12, timeout=3000)
     ck.apalache("AP_Recode16", 65, "radix-16 recoding: reconstruction, digit ranges, top digit <= 8 for ALL scalars below 2^255")
+    for w, c in ((5, "C5"), (8, "C8")):
+        ck.apalache("AP_NafInd", 0, "NAF(%d): the invariant holds initially" % w, cinit=c, init="Init")
+        ck.apalache("AP_NafInd", 1, "NAF(%d): val = rec + carry*wgt, digits odd and below 2^(w-1) is INDUCTIVE (any number of steps, any scalar)" % w, cinit=c, init="IndInit")
     nmax = 191 if quick else 801
     if quick:
         specs = [("s64", True), ("s64", False), ("v2", True), ("v2", False)]
